@@ -19,7 +19,7 @@ func init() { register(c20{}) }
 func (c20) ID() string            { return "C20" }
 func (c20) EvidenceLevel() string { return "exploration" }
 func (c20) Rule() string {
-	return "case = (level in {-2,-1,1,2}, 32K/4K window, input of n bytes written with one Write and Close, no Flush, on a fresh Writer or (every fourth case) on one that was Reset before its first write or after an earlier stream (incl. skewed data ending in one rare long repeat) which was closed, abandoned, or failed on its destination during Close or Flush; every eighth case goes through the gzip or zlib Writer, the bounds then allow 18 bytes of container). Expansion inputs: uniform, near-uniform, Fibonacci- and geometric-skewed alphabets, statistics flipping every 20000 bytes, random data with sparse far 4-byte matches, all-equal 65536-byte blocks, sizes 0,1,100,8449,65535,65536,65537,200000,1 MiB: len(out) <= n + n/32 + 256. Effectiveness inputs: every period 1..64 x n in {65536,65537,100000,300000} at levels 1,2,-1: len(out) <= n/32 + 1200. The stream must also pass the C01 decode oracle. Non-trivial: n > 0; distinct by (setting, data digest)."
+	return "case = (level in {-2,-1,1,2}, 32K/4K window, input of n bytes written with one Write and Close, no Flush, on a fresh Writer or (every fourth case) on one that was Reset before its first write or after an earlier stream (incl. skewed data ending in one rare long repeat) which was closed, abandoned, or failed on its destination during Close or Flush; every eighth case goes through the gzip or zlib Writer, the bounds then allow 18 bytes of container). Expansion inputs: uniform, near-uniform, Fibonacci- and geometric-skewed alphabets, statistics flipping every 20000 bytes, random data with sparse far 4-byte matches, all-equal 65536-byte blocks, sizes 0,1,100,8449,65535,65536,65537,200000,1 MiB: len(out) <= n + n/32 + 256. Effectiveness inputs: every period 1..64 x n in {65536,65537,100000,300000} at levels 1,2,-1: len(out) <= n/32 + 1200. The stream must also pass the C01 decode oracle. Non-trivial: n > 0; distinct by (setting, data digest). Among the periodic inputs are units over three symbols in which every cyclic 3-gram occurs at least twice and every 4-gram once (periods 54..64, an Euler circuit of a reduced de Bruijn graph)."
 }
 func (c20) NumCases(tier string) int {
 	if tier == "thorough" {
@@ -60,8 +60,18 @@ func (c20) Run(c *mon.Ctx, i int) {
 		case 4:
 			// few symbols but every cyclic 4-gram of the unit distinct: the newest
 			// candidate for any 4 bytes is exactly one period back
-			alpha = r.Pick(3, 3, 4, 5)
-			if u, ok := gen.DistinctGramUnit(r, period, alpha, 4); ok {
+			// alphabet size enumerated with the size index: three symbols (every
+			// 3-gram recurs in a unit longer than 27) for two sizes, four and five
+			alpha = []int{3, 3, 4, 5}[(i/64)%4]
+			u, ok := []byte(nil), false
+			if alpha == 3 && period >= 54 && (i/64)%4 == 0 {
+				// every 3-gram of the unit twice, every 4-gram once
+				u, ok = gen.DoubleGramUnit(r, period)
+			}
+			if !ok {
+				u, ok = gen.DistinctGramUnit(r, period, alpha, 4)
+			}
+			if ok {
 				b := make([]byte, n)
 				for j := range b {
 					b[j] = u[j%len(u)]
